@@ -31,7 +31,8 @@ def gen_prog(rng, union_rate=0.35):
     # distinct signatures only (registration order of distinct signatures is what the property quantifies over)
     seen, out = set(), []
     for d in defs:
-        k = json.dumps([d["pos"], d["prio"]])
+        # distinct up to the order of union members (reordered unions are one signature)
+        k = json.dumps([[model.canon_ty(t) for t in d["pos"]], d["prio"]])
         if k not in seen:
             seen.add(k)
             out.append(d)
@@ -45,7 +46,7 @@ def run_order(prog, order):
     w = world_from(prog["spec"])
     defs = [prog["defs"][i] for i in order]
     b = progs.Built(w, defs)
-    mms = [progs.enc_method(d, 0) for d in defs]
+    mms = R.model_defs(defs)
     keys = [R.call_key(c) for c in prog["calls"]]
     mres = model.run_cases([[10, w.encode(), mms, [[0, k] for k in keys]]])[0]
     impl = []
